@@ -228,7 +228,7 @@ def run(tier):
     seed = ck.seed
     traces, metas = [], []
     hb = [(16, 8), (8, 8)] if not th else [(16, 8), (8, 8), (4, 8), (40, 12)]
-    n = 18 if not th else 60
+    n = 18 if not th else 36
     blocked = []
     for cimpl in ('sync', 'async'):
         for simpl in ('sync', 'async'):
@@ -252,7 +252,7 @@ def run(tier):
     for cimpl in ('sync', 'async'):
         for simpl in ('sync', 'async'):
             for lat, (pi, pt) in ((1, (4, 4)), (2, (4, 8)), (3, (8, 8))):
-                for k, sc in enumerate(slow_conversations(seed + lat, 6 if not th else 16)):
+                for k, sc in enumerate(slow_conversations(seed + lat, 6 if not th else 12)):
                     scfg = {'ping_interval': pi, 'ping_timeout': pt, 'monitor': k % 2 == 0}
                     steps, facts = e2e.run_conversation(cimpl, simpl, scfg, sc, seed=seed, latency=lat)
                     traces.append(to_trace(steps))
@@ -264,7 +264,7 @@ def run(tier):
     for cimpl in ('sync', 'async'):
         for simpl in ('sync', 'async'):
             for hl, (pi, pt) in ((1, (8, 8)), (2, (8, 8)), (3, (16, 16))):
-                for k, sc in enumerate(slow_http_conversations(seed + 10 + hl, 6 if not th else 16)):
+                for k, sc in enumerate(slow_http_conversations(seed + 10 + hl, 6 if not th else 12)):
                     scfg = {'ping_interval': pi, 'ping_timeout': pt, 'monitor': k % 2 == 0}
                     lat = hl if k % 2 else 0
                     steps, facts = e2e.run_conversation(cimpl, simpl, scfg, sc, seed=seed,
